@@ -266,6 +266,17 @@ func (c *Ctx) StartWatchdog(limit time.Duration) {
 // Beat tells the watchdog the harness is alive inside a long case made of many sub-steps.
 func (c *Ctx) Beat() { c.lastBeat.Store(time.Now().UnixNano()) }
 
+// RaceLog returns the race detector's log of this process when GORACE names a log_path ("" if none).
+func RaceLog() string {
+	for _, f := range strings.Fields(os.Getenv("GORACE")) {
+		if p, ok := strings.CutPrefix(f, "log_path="); ok {
+			b, _ := os.ReadFile(fmt.Sprintf("%s.%d", p, os.Getpid()))
+			return string(b)
+		}
+	}
+	return ""
+}
+
 // InitProcess applies the per-process resource rules: small max stack so a runaway recursion dies
 // in milliseconds, and (outside race builds) an address-space limit.
 func InitProcess(raceBuild bool) {
